@@ -186,7 +186,7 @@ func issueKey(s string) string {
 
 func (c *c10) RunCase(w *core.Worker, idx int, seed uint64, res *core.CaseResult) {
 	rng := core.NewRng(seed)
-	poolName := []string{"base+mk+keyonly", "base+mk+extra", "base+mk+extra+keyonly", "base+extra", "base+mk+extra+pres", "base+choice"}[idx%6]
+	poolName := []string{"base+mk+keyonly", "base+mk+extra", "base+mk+extra+keyonly", "base+extra+slashkeys", "base+mk+extra+pres", "base+choice"}[idx%6]
 	c.h.pool = poolFor(poolName)
 	// (only-intended deletes leave unmanaged nodes of a choice case behind; what is owed to them is not stated)
 	c.h.noOrphan = strings.Contains(poolName, "choice")
